@@ -295,6 +295,14 @@ def setup():
     # failed, or was never made, looks like)
     from liquer.store import get_store
 
+    # commands of the other namespace have been used, legally, before: they stay unknown where that namespace is not active
+    from liquer.context import Context
+
+    for legal in ("one/ns-alt/only_alt", "one/ns-alt/add-2", "ns-alt/only_alt"):
+        try:
+            Context().evaluate(legal)
+        except Exception:
+            pass
     st = get_store()
     st.store("dir/sub/b.bin", b"\x00\x01bin", {})
     st.store_metadata("dir/metaonly.txt", {"status": "recipe", "title": "never produced"})
